@@ -956,11 +956,13 @@ func runC07_10(c *Ctx) {
 	goon := p.MethodObj(Root, "session", "goonRead")
 	readMsg := p.MethodObj(Root+"/socket", "Socket", "ReadMessage")
 	goF := p.FuncObj(Root, "Go")
-	reads := CallsTo(fn, readMsg)
-	if len(reads) != 1 {
-		c.Undec("read gate anchors", p.Pos(fn.Pos()), fmt.Sprintf("expected 1 ReadMessage in startReadAndHandle, found %d", len(reads)))
+	_ = readMsg
+	_, rc := readLoopReadCall(p)
+	if rc == nil {
+		c.Undec("read gate anchors", p.Pos(fn.Pos()), "cannot find the (single) read call of the read loop")
 		return
 	}
+	reads := []ssa.CallInstruction{rc.(ssa.CallInstruction)}
 	edges := CondCallEdges(fn, goon)
 	headOK := false
 	for _, e := range edges {
@@ -1041,4 +1043,28 @@ func runC07_11(c *Ctx) {
 	if n < 4 {
 		c.Undec("reject-edge-count", "", fmt.Sprintf("found %d hook reject edges, expected 4", n))
 	}
+}
+
+// readLoopReadCall finds the call in startReadAndHandle that reads one message: Socket.ReadMessage
+// itself or a same-package helper that performs the single ReadMessage. It returns the function
+// that directly invokes Socket.ReadMessage and the call instruction inside the loop.
+func readLoopReadCall(p *Prog) (reader *ssa.Function, readCall ssa.Instruction) {
+	loop := p.Fn(Root, "session", "startReadAndHandle")
+	readMsg := p.MethodObj(Root+"/socket", "Socket", "ReadMessage")
+	if rs := CallsTo(loop, readMsg); len(rs) == 1 {
+		return loop, rs[0]
+	}
+	n := 0
+	for _, call := range AllCalls(loop) {
+		if sf := StaticFn(call); sf != nil && sf.Pkg == loop.Pkg && len(CallsTo(sf, readMsg)) == 1 {
+			if _, isCall := call.(*ssa.Call); isCall {
+				reader, readCall = sf, call
+				n++
+			}
+		}
+	}
+	if n != 1 {
+		return nil, nil
+	}
+	return
 }
